@@ -71,7 +71,20 @@ Wide == {t \in {TR(2, 3, hm, vm, <<>>, <<>>) : hm \in SmallSeqs(PosSet(2, 3), 2)
            /\ TblOK(t.tb)
            /\ \A s \in {t.tb.hm, t.tb.vm} :
                  Len(s) = 2 => (s[1][1] < s[2][1] \/ (s[1][1] = s[2][1] /\ s[1][2] < s[2][2]))}
-DocsC(md) == LET tc == TablesC(md) \cup Wide IN
+\* tables as grids with both kinds of spans together: every r x c table with up to nh
+\* horizontal and nv vertical merges anywhere (a horizontal span before / at / after the column
+\* of a vertical merge, merges starting in the first / a middle / the last column and row, two
+\* merges in one row, a merge under a spanning cell)
+GridTables(r, c, nh, nv) ==
+    {t \in {TR(r, c, hm, vm, <<>>, <<>>) : hm \in SmallSeqs(PosSet(r, c), nh), vm \in SmallSeqs(PosSet(r, c), nv)} :
+        /\ TblOK(t.tb)
+        /\ Len(t.tb.hm) + Len(t.tb.vm) >= 1
+        /\ \A s \in {t.tb.hm, t.tb.vm} :
+              Len(s) = 2 => (s[1][1] < s[2][1] \/ (s[1][1] = s[2][1] /\ s[1][2] < s[2][2]))}
+\* md = 2 (quick): 2 x 4 with one horizontal and up to two vertical merges;
+\* md = 3 (thorough): 2 x 4 with two and two, 3 x 4 with one and two
+DocsC(md) == LET tc == TablesC(md) \cup Wide
+                       \cup (IF md <= 2 THEN GridTables(2, 4, 1, 2) ELSE GridTables(2, 4, 2, 2) \cup GridTables(3, 4, 1, 2)) IN
              {D(f, <<t>>, 0, 0) : f \in Fmts, t \in tc}
              \cup {D(f, <<Plain, t, Plain>>, 0, 0) : f \in Fmts, t \in {x \in tc : x.tb.rows = md /\ x.tb.cols = md}}
 
